@@ -157,6 +157,22 @@ fn main() {
             let code = with_prop!(id, p => framework::standard_replay(&p, &path));
             std::process::exit(code);
         }
+        "shrinkcheck" => {
+            let ids: Vec<String> = args[1..].to_vec();
+            let cases = env_u64("VERIF_RUNS").unwrap_or(150);
+            let mut bad = false;
+            for id in &ids {
+                let r = with_prop!(id.as_str(), p => framework::shrink_soundness(&p, env_u64("VERIF_SEED").unwrap_or(1), cases, 12));
+                match r {
+                    Ok(n) => println!("shrinker soundness {id}: ok ({n} candidates of {cases} cases executed, none violates)"),
+                    Err(e) => {
+                        println!("shrinker soundness {id}: FAILED {e}");
+                        bad = true;
+                    }
+                }
+            }
+            std::process::exit(if bad { 2 } else { 0 });
+        }
         "selfcheck" => {
             let ids: Vec<String> = if args.len() > 1 { args[1..].to_vec() } else { vec!["C06".into()] };
             let runs = env_u64("VERIF_RUNS").unwrap_or(2000);
